@@ -676,13 +676,22 @@ func (s *Session) initMemManager() error {
 
 func (s *Session) extractShmMetadata(body []byte) (bufferPath string, queuePath string) {
 	offset := 0
+	if len(body) < 2 {
+		return "", ""
+	}
 	queuePathLen := int(binary.BigEndian.Uint16(body[0:2]))
 	offset += 2
+	if len(body) < offset+queuePathLen+2 {
+		return "", ""
+	}
 	queuePath = string(body[offset : offset+queuePathLen])
 	offset += queuePathLen
 
 	bufferPathLen := int(binary.BigEndian.Uint16(body[offset : offset+2]))
 	offset += 2
+	if len(body) < offset+bufferPathLen {
+		return "", ""
+	}
 	bufferPath = string(body[offset : offset+bufferPathLen])
 	return
 }
